@@ -1,3 +1,3 @@
 From Coq Require Import Extraction ExtrOcamlBasic.
 From LT Require Import PgpCodecModel PgpSigModel.
-Extraction "model.ml" hash_input_v4 hash_input_v3 hash_input_v5 cert_object check_validity chunk_nonce_impl sig_body_fields chunk_ad final_ad verify_hash_input.
+Extraction "model.ml" hash_input_v4 hash_input_v3 hash_input_v5 cert_object check_validity chunk_nonce_impl sig_body_fields chunk_ad final_ad verify_hash_input eddsa_sigval.
